@@ -11,6 +11,9 @@ Fixpoint d_reads_log (d : drc) (sizes : list nat) : list (nat * nat) * drc :=
   end.
 
 Definition pair_nat_eqb (a b : nat * nat) : bool := Nat.eqb (fst a) (fst b) && Nat.eqb (snd a) (snd b).
+(* byte counts of the implementation are binary numbers (bodies of MiB); the model counts in units *)
+Definition pair_Nnat_eqb (a b : N * nat) : bool := N.eqb (fst a) (fst b) && Nat.eqb (snd a) (snd b).
+Definition in_bytes (unit : N) (n : nat) : N := (N.of_nat n * unit)%N.
 
 Record callobs := mkco {
   co_ok : bool;                   (* Submit returned a result and no error *)
@@ -18,7 +21,7 @@ Record callobs := mkco {
   co_goroutine_gone : bool;       (* no goroutine started by the call is left (polled with a generous bound) *)
   co_resp_opened : nat;           (* response bodies handed out by the transport *)
   co_resp_closes : nat;           (* Close calls on them *)
-  co_resp_left : nat;             (* bytes left unread in the response body at Close *)
+  co_resp_left : N;               (* bytes left unread in the response body at Close (binary: the body may hold MiB) *)
   co_req_body_closed : bool;      (* the transport stub closed the request body (its contract) *)
   co_in_time : bool               (* the call returned before its effective deadline plus slack *)
 }.
@@ -26,7 +29,10 @@ Record callobs := mkco {
 (* when the call is timed: the caller's deadline (if any) and the request timeout, relative to the start of the
    call, and how long Submit took (all in nanoseconds: a timeout may be that small); timed = the transport or the response body stalls until
    the context ends, so that the call has to be ended by its effective deadline *)
-Record timing := mktm { tm_timed : bool; tm_parent : option Z; tm_timeout : Z; tm_elapsed : Z }.
+(* tm_client: the Timeout of the http.Client in use (0: none). It is no part of the bound: it comes on top of the
+   request timeout and the caller's deadline and can only end the call earlier (C12_client_timeout_only_shortens);
+   the call has to be back by the deadline of the request timeout and the context whatever the client's own timer. *)
+Record timing := mktm { tm_timed : bool; tm_parent : option Z; tm_timeout : Z; tm_client : Z; tm_elapsed : Z }.
 Definition slack_ns : Z := 2000000000%Z.
 Definition in_time (t : timing) : bool :=
   if tm_timed t then
@@ -37,10 +43,12 @@ Definition in_time (t : timing) : bool :=
   else true.
 
 Inductive case :=
-| CDrain (segs : list nat) (fin : final) (sizes : list nat)
-         (log : list (nat * nat)) (closes unread : nat) (ended : bool)
+(* CDrain: segments and Read sizes in units of unit bytes (segment i holds S (segs i) units, C12_drain_any_unit);
+   the observed byte counts (log, unread) in bytes *)
+| CDrain (unit : N) (segs : list nat) (fin : final) (sizes : list nat)
+         (log : list (N * nat)) (closes : nat) (unread : N) (ended : bool)
 | CCall (nvalues : nat) (files : list fileprog) (sc : scenario) (keepalive : bool) (o : callobs) (t : timing)
-| CDeadline (parent : option Z) (timeout : Z) (observed : option Z) (duration : Z).
+| CDeadline (parent : option Z) (timeout : Z) (client : Z) (observed : option Z) (duration : Z).
 
 Definition has_failing (files : list fileprog) : bool :=
   existsb (fun f => (negb (fp_declared f) && negb (fp_sniff_ok f)) || existsb negb (fp_chunks f)) files.
@@ -56,17 +64,18 @@ Definition zle (a b : Z) : bool := (a <=? b)%Z.
 
 Definition check_case (c : case) : N :=
   match c with
-  | CDrain segs fin sizes log closes unread ended =>
+  | CDrain unit segs fin sizes log closes unread ended =>
     let '(mlog, d) := d_reads_log (d_init segs fin) sizes in
     let corr :=
-      list_eqb pair_nat_eqb mlog log &&
+      list_eqb pair_Nnat_eqb (map (fun e => (in_bytes unit (fst e), snd e)) mlog) log &&
       match d_close 31 d with
-      | Some d' => Nat.eqb (u_closes (d_u d')) closes && Nat.eqb (seg_bytes (u_segs (d_u d'))) unread &&
+      | Some d' => Nat.eqb (u_closes (d_u d')) closes && N.eqb (in_bytes unit (seg_bytes (u_segs (d_u d')))) unread &&
                    Bool.eqb (u_finished (d_u d')) ended
       | None => false
       end in
-    (* closed exactly once; the end was reached, by the caller or by the drain *)
-    verdict corr (Nat.eqb closes 1 && ended && Nat.eqb unread 0)
+    (* closed exactly once; the end was reached, by the caller or by the drain; nothing is left, however much
+       was still unread when Close was called *)
+    verdict corr (Nat.eqb closes 1 && ended && N.eqb unread 0)
   | CCall nvalues files sc keepalive o t =>
     let m := call all_fixed (compile all_fixed nvalues files) sc in
     let nfiles := length files in
@@ -82,15 +91,16 @@ Definition check_case (c : case) : N :=
          failing or going through (no case is excused since the repair of F-C12-5; the model, all_fixed, says 1
          wherever a response was obtained: C12_response_closed_exactly_once) *)
       Nat.eqb (co_resp_closes o) (co_resp_opened o) &&
-      (if keepalive then Nat.eqb (co_resp_left o) 0 else true) &&
+      (if keepalive then N.eqb (co_resp_left o) 0 else true) &&
       (if has_failing files && body_consumed sc && negb (sc_param_err sc) then negb (co_ok o) else true) &&
       co_in_time o && in_time t in
     verdict corr prop
-  | CDeadline parent timeout observed duration =>
+  | CDeadline parent timeout client observed duration =>
     (* the deadline seen by the transport lies between the effective deadline computed at the start of the
-       call and the one computed at its end (times relative to the start) *)
-    let lo := effective_deadline parent 0 timeout in
-    let hi := effective_deadline parent duration timeout in
+       call and the one computed at its end (times relative to the start); a Timeout of the http.Client in use
+       counts from the moment the client is handed the request, which lies in between as well *)
+    let lo := effective_deadline_with_client parent 0 timeout client in
+    let hi := effective_deadline_with_client parent duration timeout client in
     let ok := match observed, lo, hi with
               | None, None, None => true
               | Some d, Some l, Some h => zle l d && zle d h
